@@ -207,7 +207,7 @@ func runC05(a vh.Args, o *vh.Oracle, r *vh.Result) error {
 	for i := 0; i < 3; i++ {
 		e.routeXattrOrder(a.Seed ^ uint64(0xA77+i))
 	}
-	trees, cliEvery, maxDir := 40, 4, 200
+	trees, cliEvery, maxDir := 30, 4, 200
 	if a.Tier == "thorough" {
 		trees, cliEvery, maxDir = 500, 3, 3000
 	}
